@@ -9,7 +9,7 @@ TS-STK  SATSolver::decide pushes exactly one state on every non-UNSAT path and n
 TS-BAL  in topdown_h every decide(..) whose result is not UNSAT is followed on every path by
         exactly one pop() before the next decide or the return; the UNSAT arm pops nothing.
 """
-from . import mir, tdctx
+from . import mir, tdctx, canon
 from .base import inst, OK, VIOLATION, UNDECIDED, strip, gamma_arms
 from .facts import CheckerError
 from .mir import show
@@ -175,6 +175,28 @@ def ts_stk(prog):
                 errs.append("%s path pushes %s states (must be exactly one)" % (v, "%d..%d" % (dom, may + also_after)))
         out.append(inst("TS-STK", "%s:%s" % (dec.npath, v), VIOLATION if errs else OK, dec, line,
                         "; ".join(errs) if errs else ("no push on UNSAT" if v == "UNSAT" else "exactly one push before returning %s" % v)))
+    # provenance: the state that decide pushes is built in this call, and its model is what unit propagation returned
+    # for the *current* top model and this call's literal.  (A state fetched from anywhere else — a memo keyed by the
+    # residual hash — need not extend the current model: it imports another history's assignments.)
+    for k, cs in enumerate(pushes, 1):
+        v = strip(canon.inline_local(prog, cs.args[1], lambda h: h.impl_self == S and "{closure" not in h.npath))
+        errs = []
+        if isinstance(v, tuple) and v and v[0] == "agg" and (v[2] or "").endswith("SatState") and "model" in v[5]:
+            m = strip(v[4][v[5].index("model")])
+            src = strip(m[1][1]) if canon.is_payload(m, variant="PartialSAT") else None
+            ok = src is not None and mir.is_call(src, "decide") and len(src[2]) == 3 and strip(src[2][2]) == ("param", 2) and \
+                "state_stack" in show(src[2][1])
+            if not ok:
+                errs.append("the model of the pushed state is %s, not the result of unit propagation from the top model "
+                            "with this call's literal" % show(m)[:70])
+        elif any(mir.is_call(x, "get") or mir.is_call(x, "get_mut") or mir.is_call(x, "remove") for x in mir.subterms(v)) and \
+                any(x == ("param", 1) for x in mir.subterms(v)):
+            errs.append("the pushed state is %s: fetched from a table of the solver, not propagated from the current top "
+                        "model — it may contain assignments of another history" % show(v)[:70])
+        else:
+            errs.append("?the pushed state is %s, not a SatState built in this call" % show(v)[:60])
+        out.append(inst("TS-STK", "%s:pushed-state#%d" % (dec.npath, k), VIOLATION if errs else OK, dec, cs.line,
+                        "; ".join(errs) if errs else "pushes SatState{model: propagate(top model, literal), ..}"))
     popf = prog.find1(name="pop", self_adt=S, unit="rsdd-lib")
     pp = _stack_calls(popf, "pop")
     errs = []
